@@ -6,11 +6,14 @@ from checks.c01 import up_to_phase
 
 TRUSTED_BASE = [
     "Coq 8.16.1 kernel (coqc); vm_compute only in the Example",
-    "axioms: none (parse/emit round trip, log = history, operand well-formedness are closed under the global context)",
+    "axioms: none for the parse/emit round trip, log = history and operand well-formedness (closed under the global context); the replay theorem "
+    "(lazy allocation = register declared up front) is over Coq's reals and depends on the standard library's ClassicalDedekindReals.sig_forall_dec, "
+    "ClassicalDedekindReals.sig_not_dec and FunctionalExtensionality.functional_extensionality_dep",
     "extraction ExtrOcamlBasic+ExtrOcamlString; the reader parse_qasm and the replaying simulator are the extracted Coq functions",
     "harness drv_prog.cpp, the real CLI binary for the --emit-qasm/.qasm comparison; hooks H1,H2,H3",
     "std::to_string(double) is modelled by printf(\"%f\") in the OCaml driver; angles are compared after replay with tolerance 5e-7 per rotation",
-    "not proved: that lazily allocated qubits commute with earlier gates (replay starts from n pre-allocated qubits) - checked by the replay on every generated program",
+    "proved over the reals, observed in binary64: that lazily allocated qubits commute with every operation (Sim/LazyAlloc.v); the replay on every "
+    "generated program checks the same thing on the implementation, with rounding",
 ]
 
 def run(chk):
